@@ -294,6 +294,8 @@ func c10Case(w *core.W, j int) {
 	if emptyTail {
 		l = model.Layouts[[]uint16{257, 256, 16, 10}[j/13%4]] // CAA, URI, TXT, NULL: RDATA may end in an empty field
 	}
+	origTTL := []uint32{3600, 0, 1, 300, 0, 2147483647, 4294967295}[(j/2)%7]
+	w.Cover("original_ttl", fmt.Sprint(origTTL))
 	for i := 0; i < n; i++ {
 		r := g.Rec(l)
 		if emptyTail && i%2 == 0 {
@@ -308,7 +310,9 @@ func c10Case(w *core.W, j int) {
 		if c01Class(r, nil) != "" {
 			continue
 		}
-		r.Owner, r.Class, r.TTL = owner.Clone(), 1, 3600
+		// the original TTL is a signed field like any other: 0 (not "unset" once it stands in an RRSIG), 1 and the
+		// largest values included
+		r.Owner, r.Class, r.TTL = owner.Clone(), 1, origTTL
 		set.recs = append(set.recs, r)
 		if g.R.IntN(5) == 0 { // a repeated record
 			set.recs = append(set.recs, cloneRec(r))
@@ -450,7 +454,7 @@ func c10Case(w *core.W, j int) {
 		vs = append(vs, variant{"repeated-record", v2, sig})
 		v3 := set.clone()
 		for _, r := range v3.recs {
-			r.TTL = uint32(g.R.IntN(3600))
+			r.TTL = 1 + uint32(g.R.IntN(3600)) // never 0: a current TTL differs from an original TTL of 0 too
 		}
 		vs = append(vs, variant{"current-ttl", v3, sig})
 		v4 := set.clone()
